@@ -566,6 +566,9 @@ func StoragePayloadForOneToOneSpaceWithType(aSk crypto.PrivKey, bPk crypto.PubKe
 }
 
 func ValidateSpaceStorageCreatePayload(payload spacestorage.SpaceStorageCreatePayload) (err error) {
+	if payload.AclWithId == nil || payload.SpaceSettingsWithId == nil {
+		return spacestorage.ErrIncorrectSpaceHeader
+	}
 	needCheckSpaceId, err := ValidateSpaceHeader(payload.SpaceHeaderWithId, nil, payload.AclWithId.Payload, payload.SpaceSettingsWithId.RawChange)
 	if err != nil {
 		return
